@@ -8,7 +8,8 @@
 EXTENDS Integers, Sequences, TLC, Json, IOUtils
 Trace == ndJsonDeserialize(IOEnv.IN_FILE)
 Laws == {"PM(PM(x,a),b)=PM(x,a+b)", "MZM-power-2Vpi-periodic", "MZM-noise-modulated-like-signal", "PM-noise-rotated-like-signal",
-         "drive-kinds-agree-MZM", "drive-kinds-agree-PM", "PM-phase-is-pi*u/Vpi", "MZM-transfer-at-lattice-power", "LASER-|E|^2=P", "PM-total-power-unchanged", "MZM(BW)=BPF(MZM)"}
+         "drive-kinds-agree-MZM", "drive-kinds-agree-PM", "PM-phase-is-pi*u/Vpi", "MZM-transfer-at-lattice-power", "LASER-|E|^2=P", "PM-total-power-unchanged", "MZM(BW)=BPF(MZM)",
+         "LASER-field=sqrt(P)*exp(j*2pi*df*t)", "MZM-pol-spelling"}
 \* phase excursions of 1e-9 .. 1e-5 rad measured through angle(): rounding of the field (1e-16) limits the relative accuracy to about 1e-6
 SmallPhaseLaws == {"PM-small-drive-phase"}
 Bounds == {"MZM-passive-per-sample", "MZM-unselected-polarisation-extinguished"}
